@@ -14,7 +14,8 @@ Record QInvW (s : state) : Prop := {
   qi_log : forall id h, In (id, h) (refunds s) ->
       exists o, get id (objs s) = Some o /\ h_status o = HRefunded /\ h_expire o = h /\ h_closed o = h;
   qi_log_nodup : NoDup (map fst (refunds s));
-  qi_refunded : forall id o, get id (objs s) = Some o -> h_status o = HRefunded -> In (id, h_expire o) (refunds s)
+  qi_refunded : forall id o, get id (objs s) = Some o -> h_status o = HRefunded -> In (id, h_expire o) (refunds s);
+  qi_keys : NoDup (keys (objs s))
 }.
 
 Definition QInv (s : state) : Prop := QInvW s /\ forall id, ~ In (height s, id) (hq s).
@@ -46,7 +47,7 @@ Proof.
   assert (min_time_lock <= tl) as Htl.
   { apply negb_false_iff in Ev. apply andb_prop in Ev. destruct Ev as [Ev _]. apply andb_prop in Ev. destruct Ev as [Ev _]. lia. }
   unfold min_time_lock in Htl.
-  destruct W as [Wn We Wo Wf Wc Wl Wln Wr].
+  destruct W as [Wn We Wo Wf Wc Wl Wln Wr Wk].
   split; [constructor|]; simpl.
   - apply NoDup_enq; assumption.
   - intros h id' Hin. apply In_enq in Hin. rewrite get_set_cases. destruct Hin as [Heq|Hin].
@@ -64,6 +65,7 @@ Proof.
   - assumption.
   - intros id' o. rewrite get_set_cases. case_id id' id; [|apply Wr].
     intros Ho Hs. inversion Ho; subst; simpl in Hs. discriminate.
+  - apply keys_set_NoDup. exact Wk.
   - intros id' Hin. apply In_enq in Hin. destruct Hin as [Heq|Hin]; [inversion Heq; lia|exact (N _ Hin)].
 Qed.
 
@@ -74,7 +76,7 @@ Proof.
   destruct (get id (objs s)) as [o|] eqn:Hg; [|split; assumption].
   destruct (h_status o) eqn:Hst; try (split; assumption).
   destruct (negb ok); [split; assumption|]. simpl.
-  destruct W as [Wn We Wo Wf Wc Wl Wln Wr].
+  destruct W as [Wn We Wo Wf Wc Wl Wln Wr Wk].
   split; [constructor|]; simpl.
   - apply NoDup_deq; assumption.
   - intros h id' Hin. apply In_deq in Hin. destruct Hin as [Hne Hin].
@@ -92,6 +94,7 @@ Proof.
   - assumption.
   - intros id' o'. rewrite get_set_cases. case_id id' id; [|apply Wr].
     intros Ho Hs. inversion Ho; subst; simpl in Hs. discriminate.
+  - apply keys_set_NoDup. exact Wk.
   - intros id' Hin. apply In_deq in Hin. destruct Hin as [_ Hin]. exact (N _ Hin).
 Qed.
 
@@ -101,7 +104,7 @@ Lemma refund_one_spec fails s id :
   exists s', refund_one fails s id = Some s' /\ QInvW s' /\ height s' = height s
              /\ hq s' = deq (height s, id) (hq s).
 Proof.
-  intros W Hin Hnf. destruct W as [Wn We Wo Wf Wc Wl Wln Wr].
+  intros W Hin Hnf. destruct W as [Wn We Wo Wf Wc Wl Wln Wr Wk].
   destruct (We _ _ Hin) as (o & Hg & Hst & Hex).
   unfold refund_one. rewrite Hg.
   assert (h_transfer o && (h_ncoins o <? 1) = false) as Hna.
@@ -128,6 +131,7 @@ Proof.
   - intros id' o'. rewrite get_set_cases. case_id id' id.
     + intros Ho _. inversion Ho; subst; simpl. apply in_app_iff. right. left. congruence.
     + intros Hg' Hs'. apply in_app_iff. left. apply Wr; assumption.
+  - apply keys_set_NoDup. exact Wk.
 Qed.
 
 (** ** The whole drain loop *)
@@ -164,7 +168,7 @@ Proof.
   intros Q Hnf. pose proof (QInv_strict s Q) as Hstrict. destruct Q as [W N].
   set (s0 := mkS (height s + 1) (objs s) (hq s) (refunds s)).
   assert (QInvW s0) as W0.
-  { destruct W as [Wn We Wo Wf Wc Wl Wln Wr]. constructor; simpl; auto.
+  { destruct W as [Wn We Wo Wf Wc Wl Wln Wr Wk]. constructor; simpl; auto.
     intros h id Hin. specialize (Hstrict _ _ Hin). lia. }
   destruct (refund_all_spec fails (map snd (due (height s + 1) (hq s))) s0 W0) as (s' & E & W' & Hh & Hq).
   - apply NoDup_due_ids. exact (qi_nodup s W).
